@@ -439,7 +439,7 @@ fn run_all(rep: &mut Report, tier: Tier) {
     rep.set("evaluations", json!(tot.execs + n));
     rep.set("distinct_nontrivial", json!(tot.with_switch + distinct.len() as u64));
     rep.set("deviation_bound", json!(tot.max_bound));
-    rep.set("rule", json!("E1: one evaluation = one schedule (<= bound deviations, EINTR answers to epoll_wait among them) of sender tasks racing the selecting task, 2-3 members, optional member added after the first select; E2: scripted single-task histories (1..12 / ..64 ready members with traffic queued before or after add, all per-member size sequences up to length 2/3 for two members, bursts of 63..150 messages between two waits, backlogs of 10..64 messages on two or three members at once with the newer member ready first, re-adding after closures), where select blocking while the ideal set has a pending event is an exact deadlock"));
+    rep.set("rule", json!("E1: one evaluation = one schedule (<= bound deviations, EINTR answers to epoll_wait among them) of sender tasks racing the selecting task, 2-3 members, optional member added after the first select; E2: scripted single-task histories (1..12 / ..64 ready members with traffic queued before or after add, all per-member size sequences up to length 2/3 for two members, bursts of 63..150 messages between two waits, backlogs of 10..64 messages on two or three members at once with the newer member ready first, re-adding after closures), where select blocking while the ideal set has a pending event is an exact deadlock; schedules are distinct by construction (the depth-first search never repeats a choice sequence) and a schedule counts as non-trivial when it contains at least one context switch; enumerated cases are distinct by construction"));
     rep.assume("batching of select results is normalised away: per-member sequences are compared");
 }
 
